@@ -28,6 +28,8 @@ func init() {
 }
 
 func runC06(w *World, r *Report) {
+	hrQueuePriority(w, r, "R5")
+	hrWatchListCount(w, r, "R6")
 	la := NewLockAn(w)
 	checkGB(w, r, la, "R7", []GuardRow{
 		{Pkg: pkgQProc, Struct: "Request", Fields: []string{"state", "result"}, Mutex: "inProcessMutex", MinSites: 6,
